@@ -33,9 +33,9 @@ LEAF_POST = "ensures skel(r) == skel(*{arg}),"
 def shape_stubs():
     names = ["reset", "indent", "with_indent", "increment_additional_indent", "increment_block_indent", "over_budget",
              "add_width", "take_first_line", "take_last_line", "using_simple_heuristics", "with_simple_heuristics",
-             "with_infinite_width", "used_width"]
+             "with_infinite_width", "used_width", "test_over_budget"]
     nd = [Hole("<T: Display>", "<T>", why="std::fmt::Display cannot be given an external trait specification; bound dropped on the stub", kind="proxy")]
-    out = [Fn(SH, n, impl_of="Shape", mode="stub", sig_edits=(nd if n.startswith("take_") else [])) for n in names]
+    out = [Fn(SH, n, impl_of="Shape", mode="stub", sig_edits=(nd if n.startswith("take_") else [Hole("<T: Node>", "<T>", why="sealed full_moon::node::Node bound dropped on the stub", kind="proxy")] if n == "test_over_budget" else [])) for n in names]
     out += [Fn(SH, n, impl_of="Indent", mode="stub") for n in
             ["block_indent", "additional_indent", "with_additional_indent", "add_indent_level", "indent_width"]]
     return out
@@ -107,6 +107,7 @@ VN = Hole("impl Node", "impl VNode", why="proxy trait for the sealed full_moon::
 
 VERIF_MOD = Raw("""
 #[verifier::external_body] pub fn hole_vec_token() -> Vec<Token> { unimplemented!() }
+#[verifier::external_body] pub fn extend_vec_token(v: &mut Vec<Token>, more: Vec<Token>) ensures final(v)@ == old(v)@ + more@ { unimplemented!() }
 #[verifier::external_body] pub fn hole_usize() -> (r: usize) ensures r < 0x1000_0000 { unimplemented!() }   // a Display width: machine arithmetic assumption (below 2^28; Verus models usize as 32 or 64 bits)
 #[verifier::external_body] pub fn hole_bool() -> bool { unimplemented!() }
 """, module="verif")
